@@ -637,7 +637,10 @@ func genReqHeaders(t *rapid.T, lb string) [][2]string {
 		v := rapid.SampledFrom([]string{"v1", "v2", "a, b", "old value old", "x=1; y=2", "ünï", strings.Repeat("long", 50)}).Draw(t, fmt.Sprintf("%sv%d", lb, i))
 		h = append(h, [2]string{k, v})
 	}
-	switch rapid.IntRange(0, 5).Draw(t, lb+"hop") {
+	switch rapid.IntRange(0, 7).Draw(t, lb+"hop") {
+	case 6:
+		// hop-by-hop fields whose first line is empty
+		h = append(h, [2]string{"Keep-Alive", ""}, [2]string{"Keep-Alive", "timeout=5"}, [2]string{"Proxy-Authorization", ""}, [2]string{"Proxy-Authorization", "Basic abc"})
 	case 0:
 		h = append(h, [2]string{"Keep-Alive", "timeout=5"}, [2]string{"Proxy-Authorization", "Basic abc"})
 	case 1:
@@ -646,6 +649,12 @@ func genReqHeaders(t *rapid.T, lb string) [][2]string {
 		h = append(h, [2]string{"Te", "trailers"}, [2]string{"Connection", "keep-alive, X-A"})
 	case 3:
 		h = append(h, [2]string{"Proxy-Connection", "keep-alive"}, [2]string{"Upgrade", "h2c-not"})
+	case 4:
+		// the named field occurs twice and its first line is empty; the name is listed in lower case
+		h = append(h, [2]string{"X-Hop3", ""}, [2]string{"X-Hop3", "secret-hop3"}, [2]string{"Connection", "x-hop3"})
+	case 5:
+		// two Connection lines, each naming a field
+		h = append(h, [2]string{"Connection", "X-Hop4"}, [2]string{"X-Hop4", ""}, [2]string{"Connection", "keep-alive, x-hop5"}, [2]string{"X-Hop5", "h5"})
 	}
 	switch rapid.IntRange(0, 3).Draw(t, lb+"xff") {
 	case 0:
